@@ -613,6 +613,9 @@ def explore(unit, max_paths=4000, prefix=(), split=()):
     so no path is ever left out."""
     res = UnitResult(unit)
     t0 = time.time()
+    from . import core as _core
+
+    _core.DEADLINE[:] = [t0 + 2 * UNIT_BUDGET_S]  # hard stop inside a single path (the soft budget is checked between paths)
     prefix = list(prefix)
     decisions: list[int] = list(prefix)
     owned = len(prefix)
